@@ -527,6 +527,25 @@ def check_flatten_reshape(ctx, chk):
             chk.ob("C09.from-numpy", f"{cls}.from_numpy reshapes whenever the given array does not "
                    "have the target shape", bool(okc), f"reshape under {f_show(F)}",
                    f"{ci.module.path}:{m.node.lineno}")
+        if cls == "Observation":
+            # ... and the returned observation carries the given array on every path: after the
+            # constructor's own zeros, `tensor` is set - unconditionally - to the array (reshaped or
+            # as it came)
+            news_o = [ev for ev in s.events if ev.kind == "new" and ev.data["cls"] == "Observation"]
+            if len(news_o) == 1 and len(s.returns) == 1 and s.returns[0][1] == news_o[0].data["obj"]:
+                obj = news_o[0].data["obj"]
+                final = cn.show(ip.heap[obj[2]]["fields"].get("tensor", ("unknown", "?")))
+                # every alternative of the final value is the array or its reshape
+                alts = re.sub(r"^\(|\)$", "", final)
+                ok_t = arr in final and "zeros(" not in final
+                chk.ob("C09.from-numpy", "Observation.from_numpy returns an observation whose tensor "
+                       "is the given array (reshaped when needed) on every path", ok_t,
+                       f"tensor = {final[:200]}", f"{ci.module.path}:{m.node.lineno}")
+            else:
+                chk.undecided("C09.from-numpy", "Observation.from_numpy returns an observation whose "
+                              "tensor is the given array (reshaped when needed) on every path",
+                              f"{len(news_o)} Observation construction(s), returns "
+                              f"{[cn.show(t)[:60] for _, t in s.returns]}", ci.module.path)
         if cls == "State":
             news = [ev for ev in s.events if ev.kind == "new" and ev.data["cls"] == "State"]
             okn = len(news) >= 1 and all(
